@@ -185,6 +185,8 @@ pub struct PProblem {
     pub relations: Vec<PRelation>,
     /// rendered as is, e.g. [{"type": "minimize-unassigned"}, ...]
     pub objectives: Option<Value>,
+    /// plan.clustering, rendered as is
+    pub clustering: Option<Value>,
 }
 
 fn times_json(times: &[(f64, f64)]) -> Value {
@@ -375,6 +377,9 @@ impl PProblem {
                 })
                 .collect();
             plan.insert("relations".into(), json!(rels));
+        }
+        if let Some(c) = &self.clustering {
+            plan.insert("clustering".into(), c.clone());
         }
         let mut root = Map::new();
         root.insert("plan".into(), Value::Object(plan));
